@@ -175,6 +175,23 @@ Bytes World::make_packet(const J &op)
 		if (op.gets("align") == "auto") { UserView v; int uid = clients.empty() ? 0 : std::max(0, clients[0].userid); if (peek_user(uid, v)) F = (size_t)v.fragsize; }
 		else if (op.gets("align") == "auto_up") F = up_chunk;
 		else F = (size_t)op.geti("align", 0);
+		if (op.getb("tail17") && F >= 30 && F <= 90) {
+			// exactly 17 fragments: 16 full ones and a 17th that is itself a complete zlib stream (plus the outer checksum).  Fragment
+			// numbers have 4 bits, so the 17th goes out as "fragment 0, last" of the same sequence number.
+			size_t u = 25 + (size_t)(ser % (F - 20));
+			size_t nl = 16 * F - 7 + u;
+			if (nl > 24 && nl < 60000) {
+				p.resize(nl); len = nl;
+				for (size_t i = 24; i < len; i++) p[i] = (uint8_t)(splitmix64(ser * 1000003 + i / 8) >> (8 * (i % 8)));
+				p[6] = (uint8_t)((len - 4) >> 8); p[7] = (uint8_t)(len - 4);
+				Bytes z;
+				for (size_t n = u - 11; n + 8 > u - 11 && n > 0; n--) { Bytes x(n); for (size_t i = 0; i < n; i++) x[i] = (uint8_t)(splitmix64(ser * 99991 + i) >> 9); z = z_compress(x); if (z.size() <= u) break; }
+				if (!z.empty() && z.size() <= u) memcpy(&p[16 * F - 7], z.data(), z.size());
+				probes["gen.tail17"]++;
+				if (len >= 36) for (int i = 0; i < 8; i++) p[24 + i] = (uint8_t)(ser >> (8 * (7 - i)));
+				return p;
+			}
+		}
 		size_t unit = F >= 16 && F <= 4000 ? F : 16 + (size_t)(ser % 48);
 		size_t pos = F >= 16 && F <= 4000 ? F - 7 : 40;
 		while (pos < 40) pos += unit;
